@@ -507,6 +507,10 @@ class List(BlockToken):
         matches = []
         while True:
             anchor = lines.get_pos()
+            if leader is not None and next_marker is not None and not cls.same_marker_type(leader, next_marker[2]):
+                # the upcoming item starts another list. don't read it here: reading tokenizes its whole content,
+                # which would be thrown away and done again (doubling the work at every nesting level).
+                break
             output, next_marker = ListItem.read(lines, next_marker)
             item_leader = output[3]
             if leader is None:
